@@ -188,7 +188,7 @@ def _obj(it):
     if k == 'A':
         return IPAddress(it[2], ver)
     if k == 'N':
-        return IPNetwork((it[2], it[3]), version=ver)
+        return common.make_net(ver, it[2], it[3])
     if k == 'R':
         return IPRange(IPAddress(it[2], ver), IPAddress(it[3], ver))
     if k == 'I':
